@@ -306,6 +306,12 @@ func verifyVariant(p *Program, con *Contract, choice []enumChoice, mode string, 
 			live = append(live, r)
 		}
 	}
+	// vacuity guard per return site: every return statement that the executor reached must be
+	// reachable under the assumptions made on the way (an infeasible success path would make every
+	// postcondition about it hold vacuously)
+	for k, r := range live {
+		x.cover(r, fmt.Sprintf("%s/cover.return#%d", con.Key, k+1), "return site reachable (assumptions on this path consistent)")
+	}
 	final := x.mergeN(live)
 	if final == nil {
 		// function never returns normally (e.g. always panics): nothing to check at exit
@@ -339,12 +345,9 @@ func verifyVariant(p *Program, con *Contract, choice []enumChoice, mode string, 
 		}
 	}
 	for _, en := range con.Ensures {
-		for k, conj := range x.clauseConjuncts(final, en, nil) {
-			name := fmt.Sprintf("%s/%s", con.Key, en.Name)
-			if k > 0 {
-				name += fmt.Sprintf(".%d", k+1)
-			}
-			x.oblige(final, name, "ensures", en.Text, conj)
+		for _, p := range x.clauseParts(final, en, nil) {
+			name := fmt.Sprintf("%s/%s%s", con.Key, en.Name, p.suffix)
+			x.oblige(final, name, "ensures", en.Text, p.t)
 			if o := x.obls[len(x.obls)-1]; o.Status == "" {
 				// path split conditions for the unknown case: the reach conditions of the return sites
 				for _, r := range live {
